@@ -135,3 +135,69 @@ func c13ConvCases(r *Run) {
 		}
 	}
 }
+
+// C13 — the same expression text evaluated with variables of DIFFERENT Go types on one engine (compiled-program cache): every evaluation
+// must give what a fresh engine gives for that environment — across renders, and within one render over mixed-type loop items.
+type c13User struct {
+	Name string
+	Age  int
+}
+
+func c13TypeAlternation(r *Run) {
+	exprs := []string{"n == 1", "n + 1", "n > 0", "n * 2 == 2", "u.Age >= 18", "u.Name == 'Bob'", "xs[0] == 1", "len(xs) == 1", "s == 'a'", "n == 1 ? 'one' : 'other'", "!b", "b && n == 1"}
+	envs := []map[string]any{
+		{"n": 1, "u": c13User{"Bob", 30}, "xs": []any{1}, "s": "a", "b": true},
+		{"n": 1.0, "u": map[string]any{"Name": "Bob", "Age": 30}, "xs": []int{1}, "s": "a", "b": false},
+		{"n": int64(1), "u": &c13User{"Bob", 17}, "xs": []float64{1}, "s": "b", "b": true},
+		{"n": "1", "u": map[string]any{"Name": "Al", "Age": 18.0}, "xs": []any{1.0}, "s": "a", "b": true},
+	}
+	tplOf := func(pos, e string) string {
+		switch pos {
+		case "text":
+			return "<p>[[{{ " + strings.ReplaceAll(e, "<", "&lt;") + " }}]]</p>"
+		case "attr":
+			return `<p :title="` + e + `">x</p>`
+		case "if":
+			return `<p v-if="` + e + `">[[T]]</p><p v-else>[[F]]</p>`
+		}
+		return `<p v-show="` + e + `">x</p>`
+	}
+	for _, e := range exprs {
+		for _, pos := range []string{"text", "attr", "if", "show"} {
+			tpl := tplOf(pos, e)
+			files := map[string]string{"p.vuego": tpl}
+			for _, order := range [][]int{{0, 1, 2, 3, 0}, {1, 0, 3, 2}, {3, 2, 1, 0}} {
+				shared := newEngine(files)
+				for step, ei := range order {
+					got := renderOn(shared, "p.vuego", envs[ei])
+					want := renderPage(files, "p.vuego", envs[ei])
+					c := &Case{Name: fmt.Sprintf("type alternation %s in %s, env order %v step %d", e, pos, order, step), Input: map[string]any{"stream": "alternation", "expr": e, "pos": pos, "order": order, "step": step},
+						Impl: got.canon(), Oracle: &Verdict{OK: true}, Key: fmt.Sprintf("alt|%s|%s|%v|%d", e, pos, order, step), Tags: []string{"stream:type-alternation", "pos:" + pos}}
+					if got.Out != want.Out || (got.Err == "") != (want.Err == "") {
+						c.Oracle = &Verdict{OK: false, Class: "expr-depends-on-earlier-evaluations:" + pos, Detail: fmt.Sprintf("%s with environment #%d after environments %v on the same engine gives %q / err %q; a fresh engine gives %q / err %q", e, ei, order[:step], got.Out, got.Err, want.Out, want.Err)}
+					}
+					r.Add(c)
+				}
+			}
+		}
+	}
+	// within one render: the same expression over loop items of different types
+	for _, e := range []string{"x == 1", "x + 1", "x > 0", "x.Age >= 18"} {
+		items := []any{1, 1.0, int64(1), 2}
+		if strings.Contains(e, "Age") {
+			items = []any{c13User{"a", 30}, map[string]any{"Age": 30}, &c13User{"b", 3}, map[string]any{"Age": 3.0}}
+		}
+		loop := `<p v-for="x in items">[[{{ ` + e + ` }}]]</p>`
+		got := renderPage(map[string]string{"p.vuego": loop}, "p.vuego", map[string]any{"items": items})
+		var want []string
+		for _, it := range items {
+			one := renderPage(map[string]string{"p.vuego": loop}, "p.vuego", map[string]any{"items": []any{it}})
+			want = append(want, c13ConvRe.FindAllString(one.Out, -1)...)
+		}
+		c := &Case{Name: "mixed-type loop " + e, Input: map[string]any{"stream": "alternation-loop", "expr": e}, Impl: got.canon(), Oracle: &Verdict{OK: true}, Key: "altloop|" + e, Tags: []string{"stream:type-alternation"}}
+		if g := c13ConvRe.FindAllString(got.Out, -1); strings.Join(g, "") != strings.Join(want, "") || got.Err != "" {
+			c.Oracle = &Verdict{OK: false, Class: "expr-depends-on-earlier-evaluations:loop", Detail: fmt.Sprintf("%s over %v prints %v (err %q); item by item on fresh engines: %v", e, items, g, got.Err, want)}
+		}
+		r.Add(c)
+	}
+}
